@@ -37,11 +37,11 @@ def run(tier):
 
     combos = list(itertools.product(gen_lines.FAILS, gen_lines.PLACES))
     rng.shuffle(combos)
-    ncombo = len(combos) if thorough else 70
-    for fail, place in combos[:ncombo]:
-        for layout, eol in (LAYOUTS if thorough else rng.sample(LAYOUTS, 3)):
+    import zlib
+    for fail, place in combos:
+        for layout, eol in (LAYOUTS if thorough else rng.sample(LAYOUTS, 2)):
             lrng = random.Random(rng.random())
-            p, root = gen_lines.line_case(random.Random(hash((fail, place)) & 0xffff), fail, place, npre=rng.randint(0, 5))
+            p, root = gen_lines.line_case(random.Random(zlib.crc32(("%s/%s/%d" % (fail, place, seed)).encode())), fail, place, npre=rng.randint(0, 5))
             add("line:" + layout, p, root, layout, eol, lrng)
     for i in range(300 if thorough else 60):
         for layout, eol in (("canon", "\n"), ("shift", "\r\n")):
